@@ -63,6 +63,10 @@ def fmt_val(v):
         return "%s(%s)" % (v[1], fmt_val(v[2]))
     if k == "depth":
         return "depth"
+    if k == "sel":
+        return "(%s ? %s : %s)" % (fmt_val(v[1]), fmt_val(v[2]), fmt_val(v[3]))
+    if k == "raw":
+        return "%s-as-given(not re-encoded)" % fmt_val(v[1])
     return str(v)
 
 
@@ -589,7 +593,8 @@ def c07_9(ctx):
         if isinstance(t, ast.Compare) and len(t.ops) == 1 and isinstance(t.ops[0], (ast.Eq, ast.NotEq)):
             f = Folder(ctx.repo, mod.name)
             for a, b in ((t.left, t.comparators[0]), (t.comparators[0], t.left)):
-                if f.fold(b) == 0xFFFFFFFF and "attrname:sequence" in origins(fn, node.id, a):
+                if f.fold(b) == 0xFFFFFFFF and "attrname:sequence" in origins(fn, node.id, a) and ("param:" + ps[2]) in origins(fn, node.id, a):
+                    # the sequence of the input being evaluated (selected by input_index), not of some / all inputs
                     return BAD_TRUE if isinstance(t.ops[0], ast.Eq) else BAD_FALSE
         if isinstance(t, ast.Call) and call_name(t) == "is_max":
             return BAD_TRUE
